@@ -17,6 +17,31 @@ CHECKS = {
         "note": TRUST + " BTreeMap is assumed to behave as a sorted unique map.",
         "design": "DESIGN.md section 5 C06",
     },
+    "C01": {
+        "text": "The reference last-writer-wins map (Model.Lww, one page) is compared call by call with the real store in 16 configurations (memory-only/persistent x cache x TTL x v1/v2/v3) with flush and reopen at random positions: every return value, memory_usage(), len() and the full (key, timestamp, expiry, length) state after every call. About the reference map Coq proves, for all states/keys/values/timestamps: a write or delete takes effect iff its timestamp is greater than the current one, reads return the latest accepted value, an error leaves the contents unchanged, bindings stay canonical along every sequence. The reference is tier-free, so agreement of the persistent/cached/recovered runs is what shows tier independence of the implementation.",
+        "note": TRUST + " Not proved: a tiered model of the store (resident/cached/offloaded) refining the map -- tier independence is established by execution only.",
+        "design": "DESIGN.md section 5 C01",
+    },
+    "C11": {
+        "text": "Coq theorems over the reference map for all states and clock windows: after the expiry instant no value-reading call (get, CAS, update_ttl, range) returns the value; before it (or without expiry) the value is returned and no call other than a delete of that key removes it; recovery keeps every unexpired key; a TTL-only update keeps the value. Tie: the whole-sequence correspondence of C01 in TTL-on configurations with expiries placed before/after the wall clock, including flush+reopen; absolute expiry surviving restart bit for bit is C10's codec round trip plus the whole-file check.",
+        "note": TRUST + " Not decided here: the 1 ns clock boundary; sweeper interleavings (sampled only by the background sweeper not being started); crash points inside recovery and older-generation resurrection (C04 machinery, known finding F1).",
+        "design": "DESIGN.md section 5 C11",
+    },
+    "C12": {
+        "text": "Coq: an issued automatic timestamp exceeds everything its shard has seen unless saturated; hence (for not-KnownClass histories: shard above the key's timestamp and not saturated) automatic insert/delete/CAS/patch are never answered Older; a failing explicit timestamp is not absorbed; and the unrestricted statement is refuted by a witness (known finding F2). Tie: every call of the C01 sequences reports the clock shard value, which the reference map checks against the clock rules (strictly above the previous value, within the wall-clock window, observe=max, recovered timestamps covered after reopen); an implementation-side oracle flags any automatically timestamped call answered OlderTimestamp on a key the application did not pin at the maximum; a second stream uses 2^64-2 / 2^64-1 and replays F2.",
+        "note": TRUST + " Known finding F2 is listed in known_findings.json (class near-max-accepted).",
+        "design": "DESIGN.md section 5 C12",
+    },
+    "C13": {
+        "text": "Coq (sequential clause, all call sequences): after every call and after recovery memory_usage = sum over live keys of (R + |key| + |value|) and one binding per key (so len = number of live keys); with a limit no call pushes usage above it; a refused write changes neither contents nor the counter. Tie: memory_usage() and len() compared after every call of the C01 sequences, including configurations under a limit that admits only some writes and after reopen.",
+        "note": TRUST + " The concurrent clause (no interleaving of writers exceeds the limit) is not decided by this check.",
+        "design": "DESIGN.md section 5 C13",
+    },
+    "C14": {
+        "text": "Coq (sequential clause): for every sorted binding list, bounds and limit the query returns exactly the first `limit` live (present, unexpired) bindings inside the inclusive bounds in ascending byte order (skipped entries do not consume the limit; start > end and limit 0 give the empty list), each with the key's current value. Tie: range queries with empty/extreme/inverted bounds, prefixes and limits inside every C01 sequence in all configurations and tiers.",
+        "note": TRUST + " The concurrent clauses (stable key never missing under concurrent writers) are not decided by this check; SkipMap iteration is modelled as the sorted list.",
+        "design": "DESIGN.md section 5 C14",
+    },
     "C10": {
         "text": "Codec theorems in Coq over a byte-level model written from the documented layout: little-endian round trips, CRC-32C chaining and table=bitwise definition (finite check lifted), parse.serialize round trip for v1 and v2/v3 record heads (whole extent and head block), value offset, token range/non-zero/idempotent self-verifying stamp, retirement-marker round trip and marker/record/zero disjointness. Tie on every run: (i) every pure format function vs the Coq codec through hook H3, (ii) whole files after flush() decoded by the model as an independent reader must equal the live contents with clear journal and exact counters, (iii) a golden corpus of v1/v2/v3 files from the pinned release must be decoded by the model to their manifests, be read back by the working tree, and keep their format when written to.",
         "note": TRUST + " Not proved: the whole-file bridge (decode of an encoded abstract disk) -- it is checked by execution (ii, iii).",
